@@ -241,7 +241,25 @@ def c14r_need(o):
     return [f"{r}:{o['o'][r]['class']}:{o['o'][r]['src']}" for r in ("P", "L")]
 
 
+def c11_sig(o):
+    c = o["c"]
+    return f"kind={c['kind']}:mode={c['mode'] or 'default'}:uri={c['uri']}"
+
+
+def c11_need(o):
+    return [f"{r}:{o['o'][r]['class']}:{o['o'][r]['channel']}" for r in ("P", "L")] + [f"kind:{o['c']['kind']}"]
+
+
 CHECKS = {
+    "C11": simple_table_check(
+        [dict(module="AuthResponse", sub="tbl-authresp", prefixes=("C11.",), sig=c11_sig, need=c11_need, label="authorization response table",
+              required=["P:response:query", "P:response:fragment", "P:response:form", "L:response:query", "L:response:fragment", "L:response:form",
+                        "L:refused:none", "kind:code", "kind:tokens", "kind:idtoken", "kind:errCallback", "kind:errAuthorize"])],
+        ["character fidelity is OBSERVED, not model-checked: the monitor judges per-parameter 'intact' flags computed by the harness after decoding the "
+         "Location query / raw fragment with url.ParseQuery (as a user agent's form decoding) or the HTML page with golang.org/x/net/html",
+         "strings are one representative character per class (delimiters, escapes, markup, non-ASCII, control, a literal %41), length <= 2 (quick: all length-1 "
+         "strings and selected pairs); universality over all byte strings is not claimed",
+         "redirect URI shapes: plain, with query, query containing '+' and %2B, custom scheme, trailing '?', query containing %26 %3D and UTF-8"]),
     "C14": simple_table_check(
         [dict(module="Assertion", sub="tbl-assertion", prefixes=("C14.",), sig=c14a_sig, need=c14a_need, label="JWT assertion table",
               required=["verify:accept", "verify:reject", "bearerP:accept", "bearerL:accept", "codeP:accept", "codeL:accept", "codeP:reject", "codeL:reject"]),
